@@ -322,7 +322,7 @@ impl Prop for C20 {
 			if i % nshards != shard {
 				continue;
 			}
-			let x = "x".repeat(*n);
+			let x = gen::filler(*n);
 			for (k, text) in [format!("s://u@h/p?q#{x}"), format!("s://u@h/p?{x}#f"), format!("s://u@h/{x}?q#f"), format!("s://{x}@h/p?q#f"), format!("s://u@{x}:1/p?q#f"), format!("s:{x}/p?q#f"), format!("s://h/a/{x}/b?{x}#{x}"), format!("s://u@h/{x}#f"), format!("s://u@h:1{x}", x = if *n == 0 { String::new() } else { format!("/{}", &x[1..]) }), format!("s{x}://u@h:1/p?q?r#f?g"), format!("s://h/{x}?a=1?b=2"), format!("s://h/{x}#f?g=1"), format!("s://h/{x}#{x}?x=1#"), format!("s:{x}#?{x}")].into_iter().enumerate() {
 				let text = if text.ends_with("?x=1#") { text[..text.len() - 1].to_string() } else { text };
 				let fam = if (i + k) % 2 == 0 { Fam::Uri } else { Fam::Iri };
